@@ -12,6 +12,14 @@ PROPS = {
         "assumptions": ["timeout fields are uint64 (PacketV1.WF)"],
         "level_text": "full: binding of every committed field for v1/v2 packets and acks, for all inputs, in collision-extraction form; formula equality by rfl + byte-exact correspondence",
     },
+    "C15": {
+        "lean": ["IbcVerif.Props.C15"],
+        "engines": [purefn(["ident"], n=(800, 40000), monitor=(3000, 100000))],
+        "trusted": ["the three Is*IDFormat regular expressions are re-implemented as recognisers (Model/Ident.lean) and tied to Go's regexp by the correspondence on an alphabet-covering generated corpus",
+                    "uniqueness over histories (monotone counters, identifiers of failed transactions never stored) is proved on the chain model (chain cluster) — this check covers the stateless half"],
+        "assumptions": ["sequences are uint64"],
+        "level_text": "full for the stateless half: format/parse round-trip, validity of every generated identifier for every 64-bit sequence, injectivity, 64-bit overflow rejection, for all client-type strings; history half in the chain model",
+    },
     "C16": {
         "lean": ["IbcVerif.Props.C16"],
         "engines": [purefn(["keys"], n=(400, 20000), monitor=(150, 5000))],
